@@ -607,4 +607,10 @@ def controls(repo):
         substitute(fn, pred, make, limit=1, expect=1)
     out.append(('joins-axes-swapped', repo.variant({'geodepy/survey.py': replace_in_function(src, 'joins', swap)}), 'joins'))
     out.append(('phase-default-co2', text_variant(repo, 'geodepy/survey.py', 'def phase_refractivity(LAMDA, TC, P, PV, XC=420):', 'def phase_refractivity(LAMDA, TC, P, PV, XC=450):'), 'defaults'))
+    out.append(('wet-bulb-brackets', text_variant(repo, 'geodepy/survey.py', 'e = E_w - 0.000662 * pressure * (dry_temp - wet_temp)', 'e = E_w - 0.000662 * pressure * dry_temp - wet_temp'), 'part_h2o_vap_press::wet-bulb'))
+    src_ = repo.sources['geodepy/survey.py']
+    a_, b_ = 'from math import sqrt, sin, cos, atan, radians, degrees, exp\n', '        e = (E_w*rel_humidity)/100\n'
+    if src_.count(a_) != 1 or src_.count(b_) != 1:
+        raise AnalysisError('control: anchors of the logarithm control not found in geodepy/survey.py')
+    out.append(('humidity-through-a-logarithm', repo.variant({'geodepy/survey.py': src_.replace(a_, a_[:-1] + ', log\n').replace(b_, '        e = E_w * exp(log(rel_humidity / 100))\n')}), 'logarithm[humidity]'))
     return out
